@@ -130,17 +130,33 @@ def strategy(tier):
     # award - would differ from the everybody-tables outcome
     common = dict(unknown=False, tape_size=80, rigs=rigs, min_players=3,
                   chips=('frac', 'int', 'frac', 'float'), rake=False)
-    return st.one_of(
+    base = st.one_of(
         gen.cases(profiles=(5, 5, 2), short_bias=True, **common),
         gen.cases(profiles=(5, 2), **common),
         gen.cases(games=('FO8', 'F7S8', 'NR', 'NS', 'PO', 'NT', 'FR'),
                   profiles=(5,), **common),
+        # deep stacks, checked down: final showdowns that are not all-in
+        # (the engine's show/muck decision is only exercised there)
+        gen.cases(profiles=(6, 6, 5), stack_styles=(5, 5, 0), **common),
     )
+
+    @st.composite
+    def with_order(draw):
+        case = draw(base)
+        # the engine decides every show/muck; in half of the cases the
+        # players come forward in a tape-chosen order (explicit index)
+        case['show_order'] = draw(st.sampled_from([True, 'any_order']))
+        if case['show_order'] == 'any_order':
+            # out-of-turn shows need the showdown in the players' hands
+            case['config']['autos'] &= ~(1 << 7)
+        return case
+
+    return with_order()
 
 
 def check(case, stats):
     cfg = dict(case['config'])
-    cfg['auto_show'] = True
+    cfg['auto_show'] = case.get('show_order', True)
     case = dict(case, config=cfg)
     obs = Obs()
     h = H()
@@ -241,10 +257,14 @@ def check(case, stats):
         flags.add('multi_board')
     if obs.auto_out:
         flags.add('auto_muck_or_kill')
+    if any(kd == 'show_or_muck_hole_cards' and len(a) == 2
+           for kd, a in res.interp.steps):
+        flags.add('out_of_turn_engine_decided')
     for f in flags:
         stats.count('class:' + f)
     stats.count('tournament_partial_show_probes', h.probes)
-    nontrivial = bool(flags - {'auto_muck_or_kill'})
+    nontrivial = bool(flags - {'auto_muck_or_kill',
+                                'out_of_turn_engine_decided'})
     if nontrivial:
         stats.count('nontrivial')
         stats.mark_nontrivial((sorted(cfg.items(), key=str),
